@@ -532,5 +532,12 @@ func splitConj(e *Expr) []*Expr {
 	if e.Op == "bin" && e.Name == "&&" {
 		return append(splitConj(e.Args[0]), splitConj(e.Args[1])...)
 	}
+	if e.Op == "call" && e.Name == "frameOld" && len(e.Args) > 1 {
+		var out []*Expr
+		for _, a := range e.Args {
+			out = append(out, &Expr{Op: "call", Name: "frameOld", Args: []*Expr{a}})
+		}
+		return out
+	}
 	return []*Expr{e}
 }
